@@ -132,6 +132,15 @@ def run(pid, tier):
         sc["prlimit"] = ["--nofile=256:256"]
         sc["label"] += "-nofile256"
         scenarios.append(sc)
+        for s_, pos in ((3, "last"), (5, "first")):
+            scenarios.append(runlib.barrier_scenario(s_, pos, chk.seed, linked=True))
+        # a SIGPIPE reaches monorail while it is starting the members of a group (a reader of its output went away, or the
+        # signal was simply sent): the group is started all the same
+        for s_ in ((120,) if tier == "quick" else (120, 60, 200)):
+            sc = runlib.barrier_scenario(s_, "first", chk.seed)
+            sc["interrupt"] = {"sig": 13, "after_started": 1, "delay_s": 0.0, "release_after_s": 0.1}
+            sc["label"] += "-sigpipe"
+            scenarios.append(sc)
         # members sharing one executable file (common command directory)
         for s, pos in ((2, "first"), (4, "middle"), (9, "last")) + (((17, "middle"), (33, "first")) if tier == "thorough" else ()):
             scenarios.append(runlib.barrier_scenario(s, pos, chk.seed, shared=True))
@@ -146,6 +155,10 @@ def run(pid, tier):
             scenarios.append(runlib.detached_output_scenario(chk.seed))
             if tier == "thorough":
                 scenarios.append(runlib.detached_output_scenario(chk.seed + 1, 4200))
+        if pid in ("C04", "C05"):
+            # monorail itself is sent a termination signal while a group is executing
+            for k, (n, sg) in enumerate([(1, 15), (2, 2), (3, 1)] + ([(2, 15), (4, 1), (1, 2)] if tier == "thorough" else [])):
+                scenarios.append(runlib.interrupted_scenario(n, chk.seed * 41 + k, sg))
         if pid == "C05":
             # very wide groups: the run's grouping must still be analyze's grouping, every member started once
             scenarios.append(runlib.wide_scenario(150, chk.seed, mode="all"))
